@@ -81,3 +81,71 @@ class Ops_normalize(Contract):
 
     def raises(self, x, ctx, args):
         return {}
+
+
+class Ops_cvt_to_real(Contract):
+    """
+    ops._cvt_to_real: every operand kind is converted without changing its value: a Float is passed through
+    (same object), a dyadic Fraction / an int / a Python float become the Float denoting the same number
+    (NaN, infinities and the sign of zero of a float are kept), a non-dyadic Fraction stays that Fraction.
+    """
+    target = 'fpy2.ops:_cvt_to_real'
+    params = {'x': 'Float | Fraction | int | float'}
+    returns = 'Float | Fraction'
+    properties = ['C02', 'C03']
+    inline = True     # a Float operand is returned as the same object: callers inline the body (HOWTO: no same_obj on modular results)
+
+    def post(self, x, result):
+        r = result
+        if cls_name(x) == 'Float':
+            return {'same_object': same_obj(r, x)}
+        if cls_name(x) == 'Fraction':
+            return {
+                'kind': (cls_name(r) == 'Float') == q_dyadic(x),
+                'value': (fl_finite(r) and t_val_q(trip(r)) == x and r._real._s == (x < 0))
+                         if cls_name(r) == 'Float' else (r == x),
+            }
+        if cls_name(x) == 'int':
+            return {
+                'float': cls_name(r) == 'Float',
+                'value': (fl_finite(r) and t_is_int(trip(r), x) and r._real._s == (x < 0)) if cls_name(r) == 'Float' else False,
+            }
+        # Python float
+        return {
+            'float': cls_name(r) == 'Float',
+            'nan': (r._isnan == f64_isnan(x)) if cls_name(r) == 'Float' else False,
+            'inf': (r._isinf == f64_isinf(x)) if cls_name(r) == 'Float' else False,
+            'sign': (r._real._s == f64_sign(x)) if cls_name(r) == 'Float' else False,
+            'value': (implies(f64_finite(x), r._real._exp == f64_exp(x) and r._real._c == f64_c(x)))
+                     if cls_name(r) == 'Float' else False,
+        }
+
+    def raises(self, x):
+        return {}
+
+
+class Ops_cvt_to_float(Contract):
+    """ops._cvt_to_float: as _cvt_to_real, but a non-dyadic Fraction is rejected (it is not a Float)"""
+    target = 'fpy2.ops:_cvt_to_float'
+    params = {'x': 'Float | Fraction | int | float'}
+    returns = 'Float'
+    properties = ['C02', 'C03']
+    inline = True
+
+    def post(self, x, result):
+        r = result
+        if cls_name(x) == 'Float':
+            return {'same_object': same_obj(r, x)}
+        if cls_name(x) == 'Fraction':
+            return {'value': fl_finite(r) and t_val_q(trip(r)) == x and r._real._s == (x < 0)}
+        if cls_name(x) == 'int':
+            return {'value': fl_finite(r) and t_is_int(trip(r), x) and r._real._s == (x < 0)}
+        return {
+            'nan': r._isnan == f64_isnan(x),
+            'inf': r._isinf == f64_isinf(x),
+            'sign': r._real._s == f64_sign(x),
+            'value': implies(f64_finite(x), r._real._exp == f64_exp(x) and r._real._c == f64_c(x)),
+        }
+
+    def raises(self, x):
+        return {'ValueError': (not q_dyadic(x)) if cls_name(x) == 'Fraction' else False}
